@@ -218,6 +218,17 @@ for _mod, _mn in ((FS, "feature_selection"), (SS, "sample_selection")):
     for _cls in ("FPS", "CUR", "PCovFPS", "PCovCUR"):
         _selector_entry(_mod, _mn, _cls)
 
+def _sel_fraction(C, **kw):
+    def call(ctx, X, y):
+        checked_fit(ctx, C(n_to_select=0.5, **kw), X, y)
+        checked_fit(ctx, C(n_to_select=None, **kw), X, y)
+    return call
+
+
+for _mod, _mn in ((FS, "feature_selection"), (SS, "sample_selection")):
+    for _cls in ("FPS", "CUR", "PCovFPS", "PCovCUR"):
+        ENTRIES["%s.%s(n_to_select=0.5/None)" % (_mn, _cls)] = (lambda d: {"X": d["X"], "y": d["y"]}, _sel_fraction(getattr(_mod, _cls)))
+ENTRIES["sample_selection.VoronoiFPS(n_to_select=0.5/None)"] = (lambda d: {"X": d["X"], "y": d["y"]}, _sel_fraction(SS.VoronoiFPS, full_fraction=0.5))
 ENTRIES["sample_selection.FPS(initialize=array)"] = (
     lambda d: {"X": d["X"], "init": np.array([1, 3])},
     lambda ctx, X, init: checked_fit(ctx, SS.FPS(n_to_select=4, initialize=init), X))
@@ -537,6 +548,9 @@ REFIT["sample_selection.CUR(relative threshold)"] = (
     lambda: SS.CUR(n_to_select=4, score_threshold=0.3, score_threshold_type="relative"), lambda e, d, opt: e.fit(d["X"] * (1.0 if opt else 0.02)), _probe_sel)
 REFIT["sample_selection.PCovCUR(absolute threshold)"] = (
     lambda: SS.PCovCUR(n_to_select=4, score_threshold=1e-3), lambda e, d, opt: e.fit(d["X"], d["y"]), _probe_sel)
+REFIT["sample_selection.FPS(n_to_select=0.5)"] = (lambda: SS.FPS(n_to_select=0.5), lambda e, d, opt: e.fit(d["X"]), _probe_sel)
+REFIT["feature_selection.CUR(n_to_select=0.5)"] = (lambda: FS.CUR(n_to_select=0.5), lambda e, d, opt: e.fit(d["X"]), _probe_sel)
+REFIT["sample_selection.PCovCUR(n_to_select=None)"] = (lambda: SS.PCovCUR(), lambda e, d, opt: e.fit(d["X"], d["y"]), _probe_sel)
 REFIT["sample_selection.FPS(initialize=random)"] = (
     lambda: SS.FPS(n_to_select=3, initialize="random", random_state=3), lambda e, d, opt: e.fit(d["X"]), _probe_sel)
 REFIT["feature_selection.PCovFPS(initialize=random)"] = (
